@@ -273,7 +273,7 @@ let rec jsprint_case_gen ?(top = PrintModel.coq_OpAssign) ?(bytes_out = false) r
     | PrintModel.TLB -> "[" | PrintModel.TRB -> "]" | PrintModel.TDot -> ".") out)
 
 (* ---- Js statement optimiser (Js/StmtModel.v) ---- *)
-let jsstmt_case ?(print = false) ?(readback = false) fn sx =
+let jsstmt_case ?(print = false) ?(readback = false) ?(bytes_out = false) fn sx =
   let toks = ref (Stdlib.List.filter (fun x -> x <> "") (split ' ' sx)) in
   let next () = match !toks with t :: r -> toks := r; t | [] -> failwith "jsstmt sexpr" in
   let rec pe () =
@@ -314,6 +314,7 @@ let jsstmt_case ?(print = false) ?(readback = false) fn sx =
       | None -> "parse-fails"
       | Some p -> if p = StmtParse.canon_list t ef o then "ok" else "other-tree"
   end else
+  if bytes_out then hexe (StmtRender.render_body PrintGen.coq_T_gen (nat_of_int 200) (fn = "1") l) else
   if print then begin
     let toks = StmtPrint.print_body PrintGen.coq_T_gen (nat_of_int 200) (fn = "1") l in
     let etok = function
@@ -451,6 +452,7 @@ let register (reg : string -> (string list -> string) -> unit) =
                              else if strict_in && StrLitSpec.decode false q' b' = None then "BAD-strict" else "ok"))))
     | _ -> "ok");
   reg "jsstmtr" (function [sx] -> jsstmt_case ~readback:true "1" sx | _ -> "BADARGS");
+  reg "jsstmtpb" (function [sx] -> jsstmt_case ~bytes_out:true "1" sx | _ -> "BADARGS");
   reg "jsstmtp" (function [sx] -> jsstmt_case ~print:true "1" sx | _ -> "BADARGS");
   reg "jsrw0" (function [sx] -> jsprint_case_gen ~top:PrintModel.coq_OpExpr true sx | _ -> "BADARGS");
   reg "jsprintb" (function [sx] -> jsprint_case_gen ~bytes_out:true false sx | _ -> "BADARGS");
